@@ -84,6 +84,8 @@ def impl_oracle(c):
     if kind == "panic":
         return "panic", "%s panicked: %s" % (c["op"], o["crash"][:200])
     op = c["op"]
+    if op == "file":
+        return J.file_oracle(c)
     if op in ("tojson", "series", "shell") and o.get("note"):
         return "value-and-error", "%s: %s" % (op, o["note"])
     if op == "tojson" and o.get("ok") and o.get("out") is None and not o.get("outhex"):
